@@ -108,9 +108,9 @@ def tasks(tier):
 
 
 def _dur_shapes(tier):
-    q = ["DhDmDs", "DDhDDmDDs", "?DDh", "?DDm", "?DDs", "?DDms", "?DDus", "?DDns", "DDµs", "D.DDs", "DDDms", "DDDus", "DDDns", "DD*", "?DhDDm", "DDDDDDDDDDDDs", "?DDDDDDDDh"]
+    q = ["DhDmDs", "DDhDDmDDs", "?DDh", "?DDm", "?DDs", "?DDms", "?DDus", "?DDns", "DDµs", "D.DDs", "DDDms", "DDDus", "DDDns", "DD*", "?DhDDm", "DDDDDDDDDDDDs", "?DDDDDDDDh", ".Ds", "D.s", "?Dh.DDm"]
     if tier != "quick":
-        q += ["D.DhD.DmD.Ds", "DDDDhDDDDmDDDDs", "?D.DDDms", ".Ds", "D.s", "DmsDusDns", "DsDmDh", "?DDD.DDDs", "DhDh"]
+        q += ["D.DhD.DmD.Ds", "DDDDhDDDDmDDDDs", "?D.DDDms", ".DDDms", "DmsDusDns", "DsDmDh", "?DDD.DDDs", "DhDh"]
     return q
 
 
